@@ -19,6 +19,8 @@ Theorem C11_stat_add_0_l : forall a, Stat_seq (Stat_add Stat_zero a) a.
 Proof. exact Stat_add_0_l. Qed.
 Theorem C11_stat_iadd_eq_add : forall a b, Stat_seq (Stat_iadd a b) (Stat_add a b).
 Proof. exact Stat_iadd_eq_add. Qed.
+Theorem C11_stat_iadd_self_eq_add : forall a, Stat_seq (Stat_iadd_self a) (Stat_add a a).
+Proof. exact Stat_iadd_self_eq_add. Qed.
 Theorem C11_stat_iadd_fold : forall l a, Stat_seq (fold_left Stat_iadd l a) (fold_left Stat_add l a).
 Proof. exact Stat_iadd_fold. Qed.
 Theorem C11_stat_sum_eq_fold : forall l, Stat_seq (Stat_sum l) (fold_left Stat_add l Stat_zero).
@@ -52,6 +54,8 @@ Theorem C11_action_add_0_l : forall a, ActionStat_seq (ActionStat_add ActionStat
 Proof. exact ActionStat_add_0_l. Qed.
 Theorem C11_action_iadd_eq_add : forall a b, ActionStat_seq (ActionStat_iadd a b) (ActionStat_add a b).
 Proof. exact ActionStat_iadd_eq_add. Qed.
+Theorem C11_action_iadd_self_eq_add : forall a, ActionStat_seq (ActionStat_iadd_self a) (ActionStat_add a a).
+Proof. exact ActionStat_iadd_self_eq_add. Qed.
 Theorem C11_action_additive : forall a b,
   Forall (fun f => f (ActionStat_add a b) == f a + f b) ActionStat_fields.
 Proof. exact ActionStat_add_additive. Qed.
@@ -90,6 +94,7 @@ Print Assumptions C11_stat_add_assoc.
 Print Assumptions C11_stat_add_0_r.
 Print Assumptions C11_stat_add_0_l.
 Print Assumptions C11_stat_iadd_eq_add.
+Print Assumptions C11_stat_iadd_self_eq_add.
 Print Assumptions C11_stat_iadd_fold.
 Print Assumptions C11_stat_sum_eq_fold.
 Print Assumptions C11_stat_sum_perm.
@@ -103,6 +108,7 @@ Print Assumptions C11_action_add_assoc.
 Print Assumptions C11_action_add_0_r.
 Print Assumptions C11_action_add_0_l.
 Print Assumptions C11_action_iadd_eq_add.
+Print Assumptions C11_action_iadd_self_eq_add.
 Print Assumptions C11_action_additive.
 Print Assumptions C11_level_add_comm.
 Print Assumptions C11_level_add_assoc.
